@@ -30,7 +30,8 @@ type act struct {
 }
 
 type history struct {
-	Acts []act `json:"acts"`
+	Acts  []act  `json:"acts"`
+	Noise uint64 `json:"noise,omitempty"`
 }
 
 var poolOps = []string{
@@ -52,7 +53,7 @@ func (a act) results() int {
 func genHistory(t *rapid.T, maxActs int) history {
 	n := 2 // slots 0 and 1 are the generator and the identity
 	k := rapid.IntRange(3, maxActs).Draw(t, "nacts")
-	var h history
+	h := history{Noise: noiseSeedFrom(rapid.Uint64().Draw(t, "noise"))}
 	widths := []int{2, 8, 16}
 	for i := 0; i < k; i++ {
 		a := act{Op: rapid.SampledFrom(poolOps).Draw(t, "op")}
@@ -143,6 +144,7 @@ var twoTorsionBytes = make([]byte, 32) // decodes to (0,-1)
 
 // runPool executes the history on go-ipa. Every produced element must be a valid curve point.
 func runPool(h history, rec *hx.Rec) ([]*banderwagon.Element, error) {
+	runNoise(h.Noise, 3, true)
 	g, id := banderwagon.Generator, banderwagon.Identity
 	pool := []*banderwagon.Element{&g, &id}
 	add := func(op string, e *banderwagon.Element) error {
